@@ -55,6 +55,9 @@ def constructors():
         ('classical', lambda A, **kw: pyamg.ruge_stuben_solver(sp.csr_array(A), **kw), True, 'transpose'),
         ('classical-pmis', lambda A, **kw: pyamg.ruge_stuben_solver(sp.csr_array(A), CF='PMIS', **kw), True, 'transpose'),
         ('classical-cljp', lambda A, **kw: pyamg.ruge_stuben_solver(sp.csr_array(A), CF='CLJP', **kw), True, 'transpose'),
+        # no strength measure: the level matrix itself plays the role of the strength matrix
+        ('classical-nostrength', lambda A, **kw: pyamg.ruge_stuben_solver(sp.csr_array(A), strength=None, **kw), True, 'transpose'),
+        ('classical-nostrength-direct', lambda A, **kw: pyamg.ruge_stuben_solver(sp.csr_array(A), strength=None, interpolation='direct', **kw), True, 'transpose'),
         # a strength threshold under which (almost) nothing is strongly connected: CLJP / PMISc then make every point a
         # C point, RS every point an F point -- both are "coarsening stalls"
         ('classical-cljp-nostrong', lambda A, **kw: pyamg.ruge_stuben_solver(
@@ -91,6 +94,12 @@ def structure_oracle(ctx, name, ml, Auser, Acopy, rkind, max_levels, case, filt=
         ctx.fail('user-matrix-modified/' + name, 'the caller\'s matrix changed during setup', case)
     sz = sizes_of(ml)
     mc = case.get('max_coarse')
+    if mc is not None and name == 'adaptive' and len(lv) < max(1, max_levels) and \
+            lv[-1].A.shape[0] / float(max(1, case.get('num_candidates', 1))) > mc:
+        # adaptive SA may only stop above max_coarse for max_levels (it counts nodes on some paths and degrees of
+        # freedom on others: only a coarsest level above the limit in BOTH units is reported)
+        ctx.fail('stopped-above-max_coarse/adaptive', '%d levels < max_levels=%d but the coarsest level has %d > max_coarse=%d unknowns (sizes %s)'
+                 % (len(lv), max_levels, lv[-1].A.shape[0], mc, [L.A.shape[0] for L in lv]), case)
     if mc is not None and name != 'adaptive':     # (adaptive SA re-derives its own limits for the final build)
         # coarsening continues exactly while the current level has more than max_coarse unknowns
         for l in range(len(lv) - 1):
@@ -182,6 +191,7 @@ def run(ctx):
               (c[0] in ('sa', 'rootnode', 'pairwise', 'classical', 'sa-energy') and i[0].startswith('poisson2d-6x5*')) or
               (c[0].endswith('-nostrong') and i[0] in ('poisson2d-6x5', 'diag-12')) or
               (c[0] == 'classical-cljp' and i[0] in ('poisson2d-6x5', 'diag-12')) or
+              (c[0].startswith('classical-nostrength') and i[0] in ('poisson2d-6x5', 'aniso-6x6')) or
               (c[0] == 'air-filter' and i[2] == 'nonsym') or
               (c[0] in ('sa', 'sa-2cands') and i[0] in ('poisson-6x6-bsr2', 'poisson2d-6x5'))]
     rng = ctx.sub('pick')
